@@ -185,6 +185,20 @@ def runF : List Action := [.podGone "job-h-0", .deliverPod, .deliverPod, .delive
 def sF : Sys := runActs sE runF
 theorem sF_reach : Reach anyAction job sF := reach_run sE_reach runF (by decide +kernel)
 
+/-! #### a task that was created but not recorded, and the Job is deleted before the retry (F-C20-1) -/
+
+/-- the first pass creates `job-h-0`, the status update that records it conflicts (pass fails, retry
+pending); the pod's creation event reaches the pod cache; the user deletes the Job; the finalizer
+pass runs on the Job whose status lists nothing -/
+def runG : List Action := [.deliverJob, .setFaults ["", "conflict"], .work, .deliverPod, .userDelete, .deliverJob, .work]
+def sG : Sys := runActs s0 runG
+theorem sG_reach : Reach anyAction job sG := reach_run (s0_reach _) runG (by decide +kernel)
+
+/-- … the kubelet removes the pod, the events are delivered: the state BEFORE the next pass -/
+def runH : List Action := [.podGone "job-h-0", .deliverPod, .deliverPod, .deliverJob]
+def sH : Sys := runActs sG runH
+theorem sH_reach : Reach anyAction job sH := reach_run sG_reach runH (by decide +kernel)
+
 theorem sA_sC : Steps anyAction job sA sC := by
   have h1 : Steps anyAction job sA (runActs sA (runB ++ runC)) := steps_run _ _ (by decide +kernel)
   rw [runActs_append] at h1
